@@ -24,6 +24,8 @@ CLAUSE = CLAUSE + (" (RF-DEP, path-sensitive zero-ness valuations) in demux_ts_p
 CLAUSE = CLAUSE + (" Every advance of the PES collecting cursor ts_pes_bp is paired, in the same step, with the countdown of ts_pes_todo by the same amount.")
 CLAUSE = CLAUSE + (" The PES header validation reads no byte beyond the look-ahead the wrap-around buffer guarantees (else "
                    "its verdict depends on where the input was cut).")
+CLAUSE = CLAUSE + (" frame_pts is latched from packet_pts only under dx->new_frame; no case of the PES header switch falls through "
+                   "into another label.")
 NOT_DECIDED = ("partition invariance as such (that feeding byte by byte yields identical frames), 'all but the first frame after "
                "damage are delivered', PES/TS header field semantics.")
 
@@ -64,6 +66,8 @@ def run(ctx, run):
     _unit_lengths(ctx, run, P.need("extract_data_units", UNIT))
     _complete_packet_examined(ctx, run, P.need("demux_ts_packet", UNIT))
     _cursor_and_count_together(ctx, run, P.need("demux_ts_packet", UNIT))
+    _frame_pts_latched_at_start(ctx, run, P.need("demux_pes_packet_frame", UNIT))
+    _no_case_fallthrough(ctx, run, P.need("valid_vbi_pes_packet_header", UNIT))
     # partition invariance: the header validation looks only at bytes the wrap-around buffer has been
     # asked to provide (rule shared with C06)
     from . import C06
@@ -676,3 +680,61 @@ def _cursor_and_count_together(ctx, run, f):
                               "appended behind it and both packets are lost - only "
                               "when a TS packet's payload is split across two feed() calls" % (ex.pretty(f, i)[:40], amt), ex.loc(f, i))
     run.floor("advances of the PES collecting cursor", n, 4)
+
+
+def _frame_pts_latched_at_start(ctx, run, f):
+    """RF-DOM: a frame is delivered with the PTS of the PES packet in which it began.  frame_pts
+    is therefore copied from packet_pts only where a new frame starts (under dx->new_frame); set on
+    every packet that adds lines, a frame spread over several PES packets is stamped with the PTS
+    of its last packet - and how packets group into calls would not matter, but which packet
+    carried which lines would."""
+    run.touch(f)
+    n = 0
+    for bid, i in flow.all_events(f):
+        for lhs, var, op, rhs in flow.stores(f, i):
+            if lhs is None or rhs is None or op != "=":
+                continue
+            if not ex.pretty(f, lhs).endswith("->frame_pts"):
+                continue
+            n += 1
+            key = "RF-DOM:%s:frame-pts-at-frame-start" % f.name
+            ok = any(a.rel == "!=" and a.R is not None and a.R.const == 0 and a.L.has("_vbi_dvb_demux.new_frame")
+                     for a in atoms.atoms_at(f, i))
+            if ok:
+                run.holds("RF-DOM", key, "`%s` only under dx->new_frame" % ex.pretty(f, i)[:50], ex.loc(f, i))
+            else:
+                run.violation("RF-DOM", key, "`%s` is not confined to the start of a frame (dx->new_frame): every PES packet that "
+                              "contributes lines overwrites the frame's time stamp, so a frame sent in several packets is delivered "
+                              "with the PTS of its last packet instead of its first" % ex.pretty(f, i)[:50], ex.loc(f, i))
+    run.floor("stores of the frame time stamp", n, 1)
+
+
+def _no_case_fallthrough(ctx, run, f):
+    """RF-CORR: the PTS_DTS_flags switch of valid_vbi_pes_packet_header() has one case per legal
+    header form and a default that rejects; a case body that runs on into the next label (a lost
+    `break`) makes a legal PTS+DTS header take the 'no PTS' verdict: after any damage such a
+    stream is never accepted again."""
+    run.touch(f)
+    n = 0
+    for sw, b in f.blocks.items():
+        if not b.term or b.term["kind"] != "SwitchStmt":
+            continue
+        targets = {s for s, lab in f.edges(sw)}
+        for t in targets:
+            for p in f.blocks[t].preds:
+                if p == sw:
+                    continue
+                if p in targets and not flow.events(f, p):
+                    continue            # `case A: case B:` - grouped labels, nothing in between
+                # p falls into the label t: is p reachable from the switch through another case?
+                if any(p in flow.reach_from(f, o, avoid=[t]) for o in targets if o != t):
+                    n += 1
+                    line = f.blocks[p].term["line"] if f.blocks[p].term else (
+                        f.exprs[f.blocks[p].elems[-1]]["line"] if f.blocks[p].elems else f.line)
+                    run.violation("RF-CORR", "RF-CORR:%s:case-fallthrough" % f.name,
+                                  "%s(): the body of one case of the header switch runs on into the next label (no `break`): a "
+                                  "header form that was decoded successfully takes the verdict of the following case"
+                                  % f.name, "%s:%d" % (f.file, line))
+    if n == 0:
+        run.holds("RF-CORR", "RF-CORR:%s:case-fallthrough" % f.name, "no case body of the header switch falls through into another label",
+                  "%s:%d" % (f.file, f.line), nontrivial=False)
